@@ -143,6 +143,63 @@ fn check_dense(eng: &str, rate: &str, k: usize, r: usize, bytes: usize, seed: u6
     Ok(r as u64)
 }
 
+fn xor_sets(a: &[Vec<u8>], b: &[Vec<u8>]) -> Vec<Vec<u8>> {
+    a.iter().zip(b).map(|(x, y)| x.iter().zip(y).map(|(p, q)| p ^ q).collect()).collect()
+}
+
+/// multi-block shards: deltas confined to one 64-byte block of one shard (zero everywhere else), data
+/// whose shards are all identical, and the decomposition of a data set into its shards - relations that a
+/// data-dependent short cut ("this block / chunk is zero, skip it") breaks
+fn check_blocks(eng: &str, rate: &str, k: usize, r: usize, bytes: usize, seed: u64) -> Result<u64, V> {
+    let e = |d: &Vec<Vec<u8>>, soil: u64| real_encode(eng, rate, k, r, bytes, d, soil).map_err(|e| ("encode Ok".to_string(), e));
+    let a = data_dense(k, bytes, seed ^ 0xB10C);
+    let ra = e(&a, 0)?;
+    let zero = vec![vec![0u8; bytes]; k];
+    let nblocks = bytes.div_ceil(64);
+    let mut n = 0u64;
+    let mut rng = Rng::new(seed ^ bytes as u64);
+    // (1) block-sparse deltas
+    let mut parts_xor = vec![vec![0u8; bytes]; r];
+    let mut all_delta = zero.clone();
+    for i in 0..k {
+        for b in 0..nblocks {
+            let mut d = zero.clone();
+            let (lo, hi) = (b * 64, ((b + 1) * 64).min(bytes));
+            rng.fill_nonzero(&mut d[i][lo..hi]);
+            all_delta[i][lo..hi].copy_from_slice(&d[i][lo..hi]);
+            let rd = e(&d, if (i + b) % 2 == 0 { seed | 1 } else { 0 })?;
+            let rad = e(&xor_sets(&a, &d), 0)?;
+            let want = xor_sets(&ra, &rd);
+            if rad != want {
+                let j = (0..r).find(|&j| rad[j] != want[j]).unwrap();
+                return Err((format!("recovery[{j}](a ^ delta) == recovery(a) ^ recovery(delta), delta = block {b} of original {i} only ({bytes}-byte shards): {}", hex(&want[j])), hex(&rad[j])));
+            }
+            parts_xor = xor_sets(&parts_xor, &rd);
+            n += 1;
+        }
+    }
+    // (2) the XOR of all those deltas encodes to the XOR of their encodings
+    let rall = e(&all_delta, 0)?;
+    if rall != parts_xor {
+        let j = (0..r).find(|&j| rall[j] != parts_xor[j]).unwrap();
+        return Err((format!("recovery[{j}](sum of the block deltas) == XOR of their recoveries = {}", hex(&parts_xor[j])), hex(&rall[j])));
+    }
+    // (3) identical shards and one-shard-at-a-time decomposition
+    let same: Vec<Vec<u8>> = vec![a[0].clone(); k];
+    let rsame = e(&same, 0)?;
+    let mut acc = vec![vec![0u8; bytes]; r];
+    for i in 0..k {
+        let mut d = zero.clone();
+        d[i] = a[0].clone();
+        acc = xor_sets(&acc, &e(&d, 0)?);
+    }
+    if rsame != acc {
+        let j = (0..r).find(|&j| rsame[j] != acc[j]).unwrap();
+        return Err((format!("recovery[{j}](k identical shards) == XOR over i of recovery(that shard at position i alone) = {}", hex(&acc[j])), hex(&rsame[j])));
+    }
+    Ok(n + 2)
+}
+
 fn run_case(f: &gfref::Field, kv: &Kv) -> Result<u64, V> {
     let (eng, rate, k, r) = (kv.str("eng"), kv.str("rate"), kv.usize("k"), kv.usize("r"));
     match kv.str("test") {
@@ -151,6 +208,7 @@ fn run_case(f: &gfref::Field, kv: &Kv) -> Result<u64, V> {
         "weight3" => check_weight3(eng, rate, k, r),
         "scalar" => check_scalar(f, eng, rate, k, r, kv.usize("i"), kv.usize("b")),
         "dense" => check_dense(eng, rate, k, r, kv.usize("bytes"), kv.u64("seed")),
+        "blocks" => check_blocks(eng, rate, k, r, kv.usize("bytes"), kv.u64("seed")),
         t => panic!("test {t}"),
     }
 }
@@ -162,7 +220,7 @@ pub fn replay(_ctx: &Ctx, case: &str) -> Result<(), String> {
 
 pub fn run(ctx: &Ctx, rep: &mut Report) {
     let f = gfref::Field::new();
-    rep.rule = "per (engine, rate, (k,r)): zero->zero; every one of the 65536 symbol values on every coordinate axis equals the XOR of the outputs of its bits; every input of GF(2)-weight <= 3 over the 16k basis bits (all pairs; all triples for k<=3, cross-original triples on a fixed stride above) equals the XOR of basis outputs; every field constant times every basis vector; dense a,b,a^b at 64/66 bytes; non-trivial = every relation checked on a non-zero input; distinct by (test,engine,rate,k,r,axis/bit)".into();
+    rep.rule = "per (engine, rate, (k,r)): zero->zero; every one of the 65536 symbol values on every coordinate axis equals the XOR of the outputs of its bits; every input of GF(2)-weight <= 3 over the 16k basis bits (all pairs; all triples for k<=3, cross-original triples on a fixed stride above) equals the XOR of basis outputs; every field constant times every basis vector; dense a,b,a^b at 64/66 bytes; with 192/200-byte shards: every delta confined to one 64-byte block of one shard, the sum of all of them, k identical shards against their one-at-a-time decomposition; non-trivial = every relation checked on a non-zero input; distinct by (test,engine,rate,k,r,axis/bit)".into();
     rep.assume("input vectors are packed one per 16-bit slot; slots do not interact (C04)");
     let mut cfgs: Vec<(usize, usize)> = Vec::new();
     let kmax = if ctx.thorough() { 9 } else { 5 };
@@ -188,6 +246,12 @@ pub fn run(ctx: &Ctx, rep: &mut Report) {
                 cases.push(base.clone().with("test", "weight3"));
                 for bytes in [64usize, 66] {
                     cases.push(base.clone().with("test", "dense").with("bytes", bytes).with("seed", ctx.seed));
+                }
+                for bytes in [192usize, 200] {
+                    if slow && (k + r > 6 || bytes == 200) && !ctx.thorough() {
+                        continue;
+                    }
+                    cases.push(base.clone().with("test", "blocks").with("bytes", bytes).with("seed", ctx.seed));
                 }
                 let thin = !ctx.thorough() && (slow && k + r > 4 || k + r > 8) || ctx.thorough() && slow && k + r > 8;
                 for i in 0..k {
@@ -221,7 +285,7 @@ pub fn run(ctx: &Ctx, rep: &mut Report) {
                 rep.transitions += n;
             }
             Err((exp, obs)) => rep.violation(Violation {
-                key: format!("{}-{}-{}-k{}r{}-{}{}", kv.str("test"), kv.str("eng"), kv.str("rate"), kv.str("k"), kv.str("r"), kv.opt("i").unwrap_or(""), kv.opt("b").map(|b| format!("b{b}")).unwrap_or_default()),
+                key: format!("{}-{}-{}-k{}r{}-{}{}", kv.str("test"), kv.str("eng"), kv.str("rate"), kv.str("k"), kv.str("r"), kv.opt("i").or(kv.opt("bytes")).unwrap_or(""), kv.opt("b").map(|b| format!("b{b}")).unwrap_or_default()),
                 case: kv.dump(),
                 expected: exp,
                 observed: obs,
